@@ -5011,6 +5011,59 @@ def lib_dict_fromkeys(ev, a, k, n, mod):
     return d
 
 
+def _shallow(v):
+    if isinstance(v, DictV):
+        out = DictV(dict(v.d))
+        out.default = v.default
+        return out
+    if isinstance(v, Tup):
+        return Tup(list(v.items), v.kind)
+    if isinstance(v, ArrV):
+        return ArrV(v.batch, v.shape, v.fill, dict(v.cells), batch_last=v.batch_last)
+    return v
+
+
+def lib_copy_copy(ev, a, k, n, mod):
+    """copy.copy: a new container holding the SAME element objects (nested dicts and lists are shared with the original)"""
+    if len(a) != 1 or isinstance(a[0], Obj):
+        raise ev.err("copy.copy of this value is not modelled", n, mod)
+    return _shallow(a[0])
+
+
+def lib_copy_deepcopy(ev, a, k, n, mod):
+    """copy.deepcopy: containers copied recursively; element objects that occur twice stay one object in the copy (the memo)"""
+    memo = {}
+
+    def rec(v):
+        if id(v) in memo:
+            return memo[id(v)]
+        if isinstance(v, DictV):
+            out = DictV()
+            memo[id(v)] = out
+            out.d = {kk: rec(vv) for kk, vv in v.d.items()}
+            out.default = v.default
+            return out
+        if isinstance(v, Tup):
+            out = Tup([], v.kind)
+            memo[id(v)] = out
+            out.items = [rec(i) for i in v.items]
+            return out
+        if isinstance(v, ArrV):
+            out = _shallow(v)
+            memo[id(v)] = out
+            return out
+        if isinstance(v, Obj):
+            raise ev.err("copy.deepcopy of an object is not modelled", n, mod)
+        return v
+    if len(a) != 1:
+        raise ev.err("copy.deepcopy with a memo argument", n, mod)
+    return rec(a[0])
+
+
+lib_copy_copy.kw = set()
+lib_copy_deepcopy.kw = set()
+LIB.setdefault("copy.copy", lib_copy_copy)
+LIB.setdefault("copy.deepcopy", lib_copy_deepcopy)
 lib_dict_fromkeys.kw = set()
 LIB["builtins.dict.fromkeys"] = lib_dict_fromkeys
 LIB["dict.fromkeys"] = lib_dict_fromkeys
